@@ -32,7 +32,7 @@ fn meta() -> Meta {
     Meta {
         id: "C19",
         level: "fault_enumeration",
-        rule: "for every configuration (naming x cleanup x write mode x 0/1 earlier run) the trace of file-system points of the history W W W5 W W R W W W is recorded fault-free; then every (site, occurrence) x burst in 1..3 is failed plus every pair of two single faults at different sites (quick: for the direct-mode configurations without earlier run; thorough: all); distinct_nontrivial = distinct (configuration, site, occurrence, burst) whose fault hits a rotation, cleanup, compression or initialisation step (not a plain write)",
+        rule: "for every configuration (naming x cleanup x write mode x 0/1 earlier run) the trace of file-system points of the history W W W5 W W R W F Reopen W5 W W is recorded fault-free; then every (site, occurrence) x burst in 1..3 is failed plus every pair of two single faults at different sites (quick: for the direct-mode configurations without earlier run; thorough: all); distinct_nontrivial = distinct (configuration, site, occurrence, burst) whose fault hits a rotation, cleanup, compression or initialisation step (not a plain write)",
         assumptions: vec![
             "a failing file-system call has no effect and returns an io::Error of kind PermissionDenied (never NotFound, which two rename sites treat as benign)".into(),
             "faults are injected through the guarded fs_point hook directly before the call (the sandbox runs as root, permission bits do not bite)".into(),
@@ -67,7 +67,7 @@ fn grid() -> Vec<Case> {
 }
 
 fn word() -> Vec<HOp> {
-    vec![HOp::W(20), HOp::W(20), HOp::W(5), HOp::W(20), HOp::W(20), HOp::R, HOp::W(20), HOp::W(20), HOp::W(20)]
+    vec![HOp::W(20), HOp::W(20), HOp::W(5), HOp::W(20), HOp::W(20), HOp::R, HOp::W(20), HOp::F, HOp::Reopen, HOp::W(5), HOp::W(20), HOp::W(20)]
 }
 /// two more rotating writes after the history: a rotation and a cleanup with all faults cleared
 fn recovery() -> Vec<HOp> {
@@ -83,8 +83,9 @@ fn bounds(tier: &str) -> Value {
 
 #[derive(Debug)]
 struct RunObs {
-    /// per operation: (injected faults during the op, error lines added during the op, result ok)
-    ops: Vec<(usize, usize, bool)>,
+    /// per operation: (sites of the faults injected during the op, error lines added during the
+    /// op, result ok)
+    ops: Vec<(Vec<&'static str>, usize, bool)>,
     injected: Vec<(&'static str, usize)>,
     trace: Vec<(&'static str, usize)>,
     lines: Vec<Vec<u8>>,
@@ -150,7 +151,7 @@ fn run(c: &Case, faults: &[FaultSpec]) -> Result<RunObs, String> {
                 initialised = true;
             }
         }
-        ops.push((during.len(), err_after - err_before, r.is_ok()));
+        ops.push((during.iter().map(|d| d.0).collect(), err_after - err_before, r.is_ok()));
         for n in family::list_names(&env.dir) {
             seen.insert(n.strip_suffix(".gz").unwrap_or(&n).to_string());
         }
@@ -243,9 +244,11 @@ fn judge_obs(c: &Case, o: &RunObs, reference: Option<&Reference>) -> Result<(), 
     let ending = c.cfg.ending();
     let all_ops: Vec<HOp> = word().into_iter().chain(recovery()).collect();
     // (3) every failure on the logging path is reported during the call it happened in
-    for (i, (inj, errs, ok)) in o.ops.iter().enumerate() {
-        if *inj > 0 {
-            let sites: Vec<&str> = o.injected.iter().map(|x| x.0).collect();
+    for (i, (sites, errs, ok)) in o.ops.iter().enumerate() {
+        let inj = sites.len();
+        if inj > 0 {
+            // a failing flush neither keeps a record from being written nor a rotation from
+            // completing (the data stays in the buffer): it need not be reported
             let only_flush = sites.iter().all(|s| *s == "flush");
             let reported = *errs > 0 || !*ok;
             if !reported && !only_flush {
